@@ -7,9 +7,9 @@ def check(tier, seed, only=None):
     p_ctx_common.run_ctx(rep, tier, [
         ("hash_pad", "leaf", "all", "all"),
         ("hash_init_digest", "leaf", "all", "all"),
-        ("submit", "tape", "reference", "per_param"),
-        ("resubmit", "tape", "reference", "per_param"),
-        ("flush", "tape", "reference", "per_param"),
+        ("submit", "tape", "reference_loose", "per_param"),
+        ("resubmit", "tape", "reference_loose", "per_param"),
+        ("flush", "tape", "reference_loose", "per_param"),
     ], only)
     rep.default_replays()
     rep.notes.append(
